@@ -716,6 +716,95 @@ func runManyCloses(rec *vcommon.Rec, carrier, closer string, total int) {
 	}
 }
 
+// runAgedSession: the sequence numbers of the DNS carrier belong to the session, not to a logical connection.
+// One logical connection writes enough to take the session's upstream packet counter past 65535 (about 12.6 MB
+// at 193 bytes a query; 14 MiB are written) and closes; then, on the session that has wrapped around, a
+// second connection writes and closes in each direction. Every byte must arrive, followed by end-of-stream.
+func runAgedSession(rec *vcommon.Rec, carrier string, total int64) {
+	c := &c17Case{Carrier: carrier, Closer: "app", Mode: fmt.Sprintf("aged-session:%d", total), Len: total, Seed: rec.Seed()*10000 + 9700}
+	rec.Mark(c)
+	p, err := e2e.Start(e2e.Options{Carrier: carrier, Tag: "g"})
+	if err != nil {
+		rec.Violation(carrier+":setup-failed", c, err.Error())
+		return
+	}
+	defer p.Close()
+	key := fmt.Sprintf("%s/aged-session/%d", carrier, total)
+	one := func(what, closer string, n int64, k uint64) *e2e.Failure {
+		app, tgt, o, err := p.Open("echo")
+		if err != nil || o != e2e.Done {
+			if o == e2e.Inconclusive {
+				return &e2e.Failure{Kind: "busy at open", Inconclusive: true}
+			}
+			return &e2e.Failure{Kind: what + ":open-failed", Info: map[string]interface{}{"err": fmt.Sprint(err), "goroutines": e2e.Clip(e2e.Stacks(), 50000)}}
+		}
+		defer app.Close()
+		defer tgt.Close()
+		w, r, dir := app, tgt, "c2t"
+		if closer == "target" {
+			w, r, dir = tgt, app, "t2c"
+		}
+		st := &e2e.Stream{Key: k, Len: n, Seg: func() int { return 32768 }}
+		var wf, rf *e2e.Failure
+		wdone := e2e.Go(func() {
+			if _, err := e2e.WriteStream(w, st); err != nil {
+				wf = &e2e.Failure{Kind: what + ":" + dir + ":write-error-before-close", Info: map[string]interface{}{"err": err.Error()}}
+				return
+			}
+			w.Close()
+		})
+		rdone := e2e.Go(func() {
+			if _, rf = e2e.ReadStream(r, st, []uint64{st.Key}); rf != nil {
+				rf.Kind = what + ":" + dir + ":" + rf.Kind
+				return
+			}
+			if rf = e2e.ExpectEOF(r, dir); rf != nil {
+				rf.Kind = what + ":" + rf.Kind
+			}
+		})
+		both := e2e.Go(func() { <-wdone; <-rdone })
+		// the window is longer than the multiplexer's keep-alive time-out (30 s): a session that has died
+		// silently ends the streams by itself and the reader reports what it got
+		win := e2e.StallWindow()
+		if win < 50*time.Second {
+			win = 50 * time.Second
+		}
+		switch e2e.WaitW(both, win) {
+		case e2e.Stalled:
+			if wf == nil && rf == nil {
+				return &e2e.Failure{Kind: what + ":" + dir + ":stalled-before-end-of-stream", Info: map[string]interface{}{"goroutines": e2e.Clip(e2e.Stacks(), 60000)}}
+			}
+		case e2e.Inconclusive:
+			return &e2e.Failure{Kind: "busy at watchdog", Inconclusive: true}
+		}
+		if wf != nil {
+			return wf
+		}
+		if rf == nil {
+			rec.Stat("closes_verified", 1)
+			rec.Stat("bytes_verified_before_eof", n)
+		}
+		return rf
+	}
+	f := one("long-transfer", "app", total, uint64(c.Seed)*4+1)
+	if f == nil {
+		f = one("after-the-wrap", "app", 65537, uint64(c.Seed)*4+2)
+	}
+	if f == nil {
+		f = one("after-the-wrap", "target", 65537, uint64(c.Seed)*4+3)
+	}
+	if f != nil && f.Inconclusive {
+		rec.Inconclusive(f.Kind, c)
+		return
+	}
+	rec.Case(key, true)
+	rec.Seen("carrier", carrier)
+	rec.Seen("aged session (bytes sent upstream before the last closes)", fmt.Sprintf("%s|%d", carrier, total))
+	if f != nil {
+		rec.Violation(fmt.Sprintf("%s:aged-session:%s", carrier, f.Kind), c, f.Info)
+	}
+}
+
 func TestVerifC17(t *testing.T) {
 	e2e.Quiet()
 	rec := vcommon.Open()
@@ -733,6 +822,11 @@ func TestVerifC17(t *testing.T) {
 			n := 4000
 			fmt.Sscanf(c.Mode[len("many-closes:"):], "%d", &n)
 			runManyCloses(rec, c.Carrier, c.Closer, n)
+			return
+		case strings.HasPrefix(c.Mode, "aged-session:"):
+			n := int64(14 << 20)
+			fmt.Sscanf(c.Mode[len("aged-session:"):], "%d", &n)
+			runAgedSession(rec, c.Carrier, n)
 			return
 		case c.Mode == "sibling-target-does-not-read":
 			runSiblingStalled(rec, c.Carrier, c.Closer)
@@ -758,6 +852,11 @@ func TestVerifC17(t *testing.T) {
 		}
 		defer p.Close()
 		runCase(rec, p, &c)
+		return
+	}
+	if os.Getenv("VERIF_C17_PART") == "aged" {
+		// a child of its own, next to the other parts of the run (it takes the longest)
+		runAgedSession(rec, "dns", 14<<20)
 		return
 	}
 	carriers := []string{"tcp", "unix", "tcp+tls", "tcp+starttls", "ws", "wss", "ws+starttls", "stdio", "udp", "udp+starttls", "dns"}
